@@ -57,6 +57,10 @@ CHECKS = {
    technique="exhaustive DFS over interleavings of device chunk deliveries (including inside blocking reads through the busy-wait hook) and every public receive/transmit call of the real VirtIOConsole, against a reference console device feeding a known byte stream",
    text="All interleavings up to the stated depth of device chunks of 1, 3 and 4096 bytes with recv(peek/pop), read(1|5), fill_buf+consume(0|1|all), read_ready, ack_interrupt, send and send_bytes: the concatenation of returned bytes must be a prefix of the device stream 1,2,3,..., peeks must not consume, at most one receive buffer is ever posted, it is re-posted only when every delivered byte has been handed to the caller, a blocking read never waits without a posted buffer, and transmit chains carry exactly the caller's bytes.",
    note="Trusts the reference console device (lab/src/c15.rs)."),
+ "C16": dict(level="model_checking", design="DESIGN.md §4 C16",
+   technique="exhaustive DFS over operation sequences of the real VirtIONetRaw and VirtIONet against a reference network device that validates transmit chains and injects frames into any posted buffer; posted/held buffer accounting after every step",
+   text="All sequences up to the stated depth of sends, receives, recycles of any held buffer, non-blocking transmit/receive with any device completion order, receive_wait with the frame delivered during the wait, and device deliveries of 0/1/1514-byte or buffer-filling frames into any posted buffer, for both drivers, with and without VERSION_1: transmit chain = zeroed 10/12-byte header + exact payload; received bytes and packet length = what the device wrote minus the header; posted + completed + held = queue size at every step; can_recv/poll_receive agree with the reference ring.",
+   note="Trusts the reference network device (lab/src/c16.rs)."),
 }
 
 NOT_YET = "check not built yet in this round (machinery under construction; see DESIGN.md)"
